@@ -127,3 +127,12 @@ Fixpoint write_melody (cur : option (Z * Z)) (l : list (mev * Z)) (total : Z) : 
 (* for event, time in zip(melody_events, [0.0] + event_times) *)
 Definition melody_written (evs : list mev) (etimes : list Z) (total : Z) : option (list mnote) :=
   write_melody None (combine evs (0 :: etimes)) total.
+
+(* infer_melody_for_sequence after the Viterbi call: nothing is written when no
+   pitched note remains ([if not pitches: return]) *)
+Definition infer_melody_write (evs : list mev) (notes : list fnote) (total : Z) : option (list mnote) :=
+  let ns := frame_notes notes total in
+  match ns with
+  | [] => Some []
+  | _ => melody_written evs (note_event_times ns total) total
+  end.
